@@ -32,7 +32,7 @@ def run(ctx, args):
     ctx.emit("MC_Codec", "MC_Codecq.cfg" if q else "MC_Codect.cfg", beh, count=True, timeout=3000, heap="12g")
     nbeh = len(set(open(beh).read().splitlines()))
     trace = os.path.join(ctx.scratch, "codec_trace.ndjson")
-    rc, out = ctx.run_driver("TestVfCodec", env={"VERIF_IN": beh, "VERIF_TRACE": trace, "VERIF_STRIDE": 12 if q else 40, "VERIF_NKINDS": 2 if q else 3,
+    rc, out = ctx.run_driver("TestVfCodec", env={"VERIF_IN": beh, "VERIF_TRACE": trace, "VERIF_STRIDE": 12 if q else 10, "VERIF_NKINDS": 2 if q else 3,
                                                  "VERIF_NRAND": 3000 if q else 60000}, timeout=3000, allow_fail=True)
     if rc != 0:
         crash_or_infra(ctx, "C14", out)
@@ -49,7 +49,7 @@ def run(ctx, args):
     ctx.rule = ("ASTs of the bounded grammar enumerated by TLC (%d: name-addr / bare addr-spec x display {none, token, quoted, quoted with %%} x scheme {sip, sips, tel, urn} x user {none, user, user:password, with ';', with '?'} x "
                 "host {IPv4, name, IPv6 reference} x port x URI parameter sequences over {valued, valueless, lr, %%-valued} x URI headers {valued, empty} x header parameter sequences; Via lists x proto x port x parameter sequences), "
                 "every %dth rendered with seeded tokens in %d header kinds each (From, To, Route, Record-Route, name-addr, addr-spec, SIP URI, Request-URI through a whole Message), plus random larger values; "
-                "non-trivial = all" % (nbeh, 12 if q else 40, 2 if q else 3))
+                "non-trivial = all" % (nbeh, 12 if q else 10, 2 if q else 3))
     with open(trace) as fh:
         ctx.samples = [next(fh).strip()[:1200] for _ in range(2)]
     ctx.assumptions += ["TLC's contribution to the design is small here (grammar enumeration and the laws of the one normalisation); the verdicts are TLC's on alpha of real decode/encode results",
